@@ -53,6 +53,17 @@ fn main() {
                 o => println!("{:?}", o),
             }
         }
+        #[cfg(feature = "full")]
+        Some("docs") => {
+            bpafmc::run::install_panic_hook();
+            let o: bpafmc::def::Opts = serde_json::from_str(&args[2]).expect("json");
+            let p = bpafmc::def::build_opts(&o);
+            match args[3].as_str() {
+                "md" => println!("{}", p.render_markdown("app")),
+                "html" => println!("{}", p.render_html("app")),
+                _ => println!("{}", p.render_manpage("app", bpaf::doc::Section::General, None, None, None)),
+            }
+        }
         Some("list") => {
             for c in &checks {
                 println!("{}", c.id());
